@@ -24,7 +24,7 @@ def sc(n):
 HIST_BUDGET = {
     # tier: (shards per profile, cases per shard, max history length, watchdog seconds)
     "quick": (8, 1200, 120, 900),
-    "thorough": (16, sc(12000), 400, 7200),
+    "thorough": (16, sc(8000), 400, 7200),
 }
 
 HIST_ASSUMPTIONS = [
@@ -94,7 +94,11 @@ def hist_search(ctx, bins, features=(), traces=False, budget=None, prop_for_run=
     jobs = []
     for name, b in sorted(bins.items()):
         # secondary configurations (LIGHT_BINS) get a third of the shards
-        nshards = max(2, shards // 3) if name in LIGHT_BINS and name not in PRIMARY_BINS.get(ctx.prop, ()) else shards
+        light = name in LIGHT_BINS and name not in PRIMARY_BINS.get(ctx.prop, ())
+        # the sanitizer build is several times slower: in the thorough tier it gets a third of the
+        # shards wherever it is a backstop rather than the deciding oracle (that is C03)
+        light = light or (name == "asan" and ctx.tier == "thorough" and ctx.prop != "C03")
+        nshards = max(2, shards // 3) if light else shards
         for s in range(nshards):
             world = worlds[s % len(worlds)]
             seed = ctx.sub_seed(name, s)
@@ -173,7 +177,7 @@ def fuzz_campaign(ctx, bins, cov, workers=16, runs=None):
     """Coverage-guided libFuzzer/ASan campaign over the same interpreter (thorough tiers).
     Artifacts are decoded to .ops files; one whose failure is tagged with the property (or that
     only crashes under the sanitizer) is a violation."""
-    runs = runs or (4000 if ctx.tier == "quick" else sc(25000))
+    runs = runs or (4000 if ctx.tier == "quick" else sc(15000))
     fbin = build_fuzz()
     work = os.path.join(VERIF, ".work", "%s-fuzz-%d" % (ctx.prop, os.getpid()))
     shutil.rmtree(work, ignore_errors=True)
@@ -494,7 +498,7 @@ def check_c03(ctx):
     if ctx.replay:
         write_evidence(ctx, "exploration", {"evaluations": nfiles, "distinct_nontrivial": 2, "rule": "replay of saved inputs only", "samples": [open(ctx.replay).read()]}, HIST_ASSUMPTIONS)
         return
-    budget = (5, 1200, 120, 1200) if ctx.tier == "quick" else (16, sc(12000), 400, 7200)
+    budget = (5, 1200, 120, 1200) if ctx.tier == "quick" else (16, sc(8000), 400, 7200)
     agg = hist_search(ctx, bins, budget=budget)
     cov = hist_coverage(ctx, agg, nfiles, rule_of("C03"), bins)
     cov["sanitizers"] = ["AddressSanitizer (nightly -Zsanitizer=address, release profile, debug assertions off) on the 'asan' build"]
